@@ -84,107 +84,30 @@ Theorem C03_coroutine_hypotheses_needed :
 Proof. exact (conj hyp_close_needed hyp_no_ge_throw_needed). Qed.
 
 (* ---- generators and async generators ------------------------------------------------------- *)
-(* `wrapped_observe_with fwd k body s0 ops`: the object returned by the wrapper variant fwd
-   (false: throw()/close() are not forwarded to the decorated generator - what /repo contains while
-   Wrap/GenWrap.v says `repo_forwards := false`; true: the repair of Wrap/GenWrapRepaired.v).
-   C03_generator_full would be `transparent_for fwd KGen`:
-     forall S body s0 ops, erase_obs (wrapped_observe_with fwd KGen body s0 ops) = plain_observe KGen body s0 ops. *)
+(* `wrapped_observe k body s0 ops` is the object /repo's wrapper returns: the variant of the model
+   named by `Definition repo_forwards` in Wrap/GenWrap.v - since /repo 767d84e the one that forwards
+   what is thrown at its `yield` (throw()/close(), athrow()/aclose()) to the decorated generator and
+   (since 44481f3) hands on its return value.  The correspondence check ties that line to the code;
+   the statements below are about `wrapped_observe` and stop compiling if the line is flipped back. *)
 
-(* It is FALSE of the faithful model of /repo's wrap_generator: *)
-Theorem C03_generator_refuted : ~ transparent_for false KGen.
-Proof. exact generator_full_false. Qed.
-
-(* witness 1 (`try: yield 1  except ValueError: yield 5`, next, throw ValueError): the exception
-   never reaches the body (which is finalised with GeneratorExit instead) and comes straight back *)
-Theorem C03_generator_refuted_throw :
-  erase_obs (wrapped_observe_with false KGen wit_catch 0 [OpNext; OpThrow ValueErr])
-  = ([([EIn (SendV 0)], OYield 1); ([EIn (ThrowE GenExit)], ORaise ValueErr)], [])
-  /\ plain_observe KGen wit_catch 0 [OpNext; OpThrow ValueErr]
-  = ([([EIn (SendV 0)], OYield 1); ([EIn (ThrowE ValueErr)], OYield 5)], [EIn (ThrowE GenExit)]).
-Proof. exact refuted_throw. Qed.
-
-(* witness 2 (body yields again on GeneratorExit, next, close): close() is not forwarded either -
-   the original raises RuntimeError, the wrapped one returns None *)
-Theorem C03_generator_refuted_close :
-  erase_obs (wrapped_observe_with false KGen wit_stubborn 0 [OpNext; OpClose])
-  = ([([EIn (SendV 0)], OYield 1); ([EIn (ThrowE GenExit)], ONone)], [])
-  /\ plain_observe KGen wit_stubborn 0 [OpNext; OpClose]
-  = ([([EIn (SendV 0)], OYield 1); ([EIn (ThrowE GenExit)], ORaise RuntimeErr)], [EIn (ThrowE GenExit)]).
-Proof. exact refuted_close. Qed.
-
-(* What IS proved of /repo's wrapper: every history made of next()/send(v) only, of EVERY body -
-   yielded values, values sent in, exceptions raised by the body, the RETURN VALUE (kept since
-   /repo commit 44481f3), behaviour after exhaustion, finalisation.
-   Missing w.r.t. the full statement: throw()/close() while the generator is suspended. *)
-Theorem C03_generator_partial :
+(* EVERY body, EVERY history (next/send/throw/close in any order, any length): all answers - yielded
+   values, StopIteration(value) i.e. the return value, raised exceptions, close()'s None / RuntimeError,
+   behaviour after exhaustion - and everything the body sees while the operations run (values sent in,
+   exceptions thrown in, GeneratorExit on close) are the original's. *)
+Theorem C03_generator_operations :
   forall (S : Type) (b : body S) (s0 : S) (ops : list op),
-    forallb is_send ops = true ->
-    erase_obs (wrapped_observe_with false KGen b s0 ops) = plain_observe KGen b s0 ops.
-Proof.
-  exact (fun S b s0 ops Hs => wrap_gen_send_only KGen b s0 ops (fun E => match E with eq_refl => I end) Hs).
-Qed.
+    fst (erase_obs (wrapped_observe KGen b s0 ops)) = fst (plain_observe KGen b s0 ops).
+Proof. exact (fun S b s0 ops => wrap_gen_fwd_ops KGen b s0 ops (fun E => match E with eq_refl => I end)). Qed.
 
-Theorem C03_generator_partial_nonvacuous :
-  forallb is_send [OpNext; OpSend 2; OpSend 3; OpNext; OpNext] = true
-  /\ plain_observe KGen wit_echo 0 [OpNext; OpSend 2; OpSend 3; OpNext; OpNext]
-     = ([([EIn (SendV 0)], OYield 10); ([EIn (SendV 2)], OYield 12); ([EIn (SendV 3)], OYield 13);
-         ([EIn (SendV 0)], OStop 9); ([], OStop 0)], [])
-  /\ wrapped_observe_with false KGen wit_echo 0 [OpNext; OpSend 2]
-     = ([([EEnable; EIn (SendV 0); EDisable], OYield 10); ([EEnable; EIn (SendV 2); EDisable], OYield 12)],
-        [EIn (ThrowE GenExit)]).
-Proof. exact partial_nonvacuous. Qed.
-
-(* the former return-value witness (`yield 1; return 7`, next, next) is now answered correctly *)
-Theorem C03_generator_return_value :
-  erase_obs (wrapped_observe_with false KGen wit_ret 0 [OpNext; OpNext])
-  = ([([EIn (SendV 0)], OYield 1); ([EIn (SendV 0)], OStop 7)], [])
-  /\ plain_observe KGen wit_ret 0 [OpNext; OpNext]
-  = ([([EIn (SendV 0)], OYield 1); ([EIn (SendV 0)], OStop 7)], []).
-Proof. exact return_value_kept. Qed.
-
-(* async generators (bodies that never await a pending awaitable) *)
-Theorem C03_async_generator_refuted : ~ transparent_for false KAsync.
-Proof. exact async_generator_full_false. Qed.
-
-Theorem C03_async_generator_refuted_athrow_aclose :
-  (erase_obs (wrapped_observe_with false KAsync wit_catch 0 [OpNext; OpThrow ValueErr])
-   = ([([EIn (SendV 0)], OYield 1); ([EIn (ThrowE GenExit)], ORaise ValueErr)], [])
-   /\ plain_observe KAsync wit_catch 0 [OpNext; OpThrow ValueErr]
-   = ([([EIn (SendV 0)], OYield 1); ([EIn (ThrowE ValueErr)], OYield 5)], [EIn (ThrowE GenExit)]))
-  /\ (erase_obs (wrapped_observe_with false KAsync wit_stubborn 0 [OpNext; OpClose])
-      = ([([EIn (SendV 0)], OYield 1); ([EIn (ThrowE GenExit)], ONone)], [])
-      /\ plain_observe KAsync wit_stubborn 0 [OpNext; OpClose]
-      = ([([EIn (SendV 0)], OYield 1); ([EIn (ThrowE GenExit)], ORaise RuntimeErr)], [EIn (ThrowE GenExit)])).
-Proof. exact (conj refuted_athrow refuted_aclose). Qed.
-
-(* anext()/asend(v)-only histories of every body.
-   Missing: athrow()/aclose() while suspended; bodies that suspend inside an await. *)
-Theorem C03_async_generator_partial :
+(* ... and for every body that honours the close contract (does not yield when GeneratorExit is thrown
+   in), what happens when the object is dropped as well: the full statement. *)
+Theorem C03_generator_full :
   forall (S : Type) (b : body S) (s0 : S) (ops : list op),
-    forallb is_send ops = true ->
-    erase_obs (wrapped_observe_with false KAsync b s0 ops) = plain_observe KAsync b s0 ops.
-Proof.
-  exact (fun S b s0 ops Hs => wrap_gen_send_only KAsync b s0 ops (fun E => match E with eq_refl => I end) Hs).
-Qed.
-
-(* ---- the forwarding variant (the repair; Wrap/GenWrapRepaired.v shows the Python) -------------- *)
-(* EVERY body, EVERY history (next/send/throw/close in any order): all answers, and everything the body
-   sees while the operations run, are the original's - for generators and async generators. *)
-Theorem C03_generator_repaired_operations :
-  forall (k : kind) (S : Type) (b : body S) (s0 : S) (ops : list op),
-    k <> KCoro ->
-    fst (erase_obs (wrapped_observe_with true k b s0 ops)) = fst (plain_observe k b s0 ops).
-Proof. exact (fun k S b s0 ops Hk => wrap_gen_fwd_ops k b s0 ops Hk). Qed.
-
-(* ... and for every body that honours the close contract, finalisation too: the full statement. *)
-Theorem C03_generator_repaired :
-  forall (k : kind) (S : Type) (b : body S) (s0 : S) (ops : list op),
-    k <> KCoro ->
     honours_close b ->
-    erase_obs (wrapped_observe_with true k b s0 ops) = plain_observe k b s0 ops.
-Proof. exact (fun k S b s0 ops Hk Hc => wrap_gen_fwd_full k b s0 ops Hk Hc). Qed.
+    erase_obs (wrapped_observe KGen b s0 ops) = plain_observe KGen b s0 ops.
+Proof. exact (fun S b s0 ops Hc => wrap_gen_fwd_full KGen b s0 ops (fun E => match E with eq_refl => I end) Hc). Qed.
 
-Theorem C03_generator_repaired_nonvacuous :
+Theorem C03_generator_full_nonvacuous :
   honours_close wit_good
   /\ plain_observe KGen wit_good 0 [OpNext; OpSend 2; OpThrow ValueErr; OpNext; OpNext]
      = ([([EIn (SendV 0)], OYield 1); ([EIn (SendV 2)], OYield 12); ([EIn (ThrowE ValueErr)], OYield 5);
@@ -194,18 +117,76 @@ Theorem C03_generator_repaired_nonvacuous :
          ([EEnable; EIn (ThrowE GenExit); EDisable], ONone)], []).
 Proof. exact repaired_nonvacuous. Qed.
 
-(* the hypothesis is needed, and it is all that is left: a body that yields while it is being finalised
-   is finalised once more when the wrapper's frame goes away *)
-Theorem C03_generator_repaired_residual :
-  snd (erase_obs (repaired_observe KGen wit_stubborn 0 [OpNext])) = [EIn (ThrowE GenExit); EIn (ThrowE GenExit)]
+(* The hypothesis of C03_generator_full is needed, and this is all that is left: a body that yields
+   while it is being finalised (CPython reports "generator ignored GeneratorExit" to sys.unraisablehook)
+   is finalised once more when the wrapper's frame goes away.  No wrapper that holds the inner generator
+   can hide that; the correspondence check does not judge finalisation of such bodies. *)
+Theorem C03_generator_residual :
+  snd (erase_obs (wrapped_observe KGen wit_stubborn 0 [OpNext])) = [EIn (ThrowE GenExit); EIn (ThrowE GenExit)]
   /\ snd (plain_observe KGen wit_stubborn 0 [OpNext]) = [EIn (ThrowE GenExit)]
   /\ ~ honours_close wit_stubborn.
 Proof. exact repaired_residual. Qed.
 
-(* what holds of the variant /repo contains according to the line `Definition repo_forwards` in
-   Wrap/GenWrap.v (the correspondence check ties that line to the code): today the refutation *)
+(* the three former refutation witnesses, now answered like the original *)
+Theorem C03_generator_former_witnesses :
+  (erase_obs (wrapped_observe KGen wit_ret 0 [OpNext; OpNext])
+   = ([([EIn (SendV 0)], OYield 1); ([EIn (SendV 0)], OStop 7)], [])
+   /\ plain_observe KGen wit_ret 0 [OpNext; OpNext]
+   = ([([EIn (SendV 0)], OYield 1); ([EIn (SendV 0)], OStop 7)], []))
+  /\ (erase_obs (repaired_observe KGen wit_catch 0 [OpNext; OpThrow ValueErr; OpClose])
+      = plain_observe KGen wit_catch 0 [OpNext; OpThrow ValueErr; OpClose]
+      /\ plain_observe KGen wit_catch 0 [OpNext; OpThrow ValueErr; OpClose]
+      = ([([EIn (SendV 0)], OYield 1); ([EIn (ThrowE ValueErr)], OYield 5); ([EIn (ThrowE GenExit)], ONone)], [])
+      /\ fst (erase_obs (repaired_observe KGen wit_stubborn 0 [OpNext; OpClose; OpNext]))
+      = fst (plain_observe KGen wit_stubborn 0 [OpNext; OpClose; OpNext])
+      /\ fst (plain_observe KGen wit_stubborn 0 [OpNext; OpClose; OpNext])
+      = [([EIn (SendV 0)], OYield 1); ([EIn (ThrowE GenExit)], ORaise RuntimeErr); ([EIn (SendV 0)], OStop 0)]
+      /\ erase_obs (repaired_observe KAsync wit_catch 0 [OpNext; OpThrow ValueErr])
+      = plain_observe KAsync wit_catch 0 [OpNext; OpThrow ValueErr]).
+Proof. exact (conj return_value_kept_current repaired_on_witnesses). Qed.
+
+(* async generators (bodies that never await a pending awaitable): asend/athrow/aclose *)
+Theorem C03_async_generator_operations :
+  forall (S : Type) (b : body S) (s0 : S) (ops : list op),
+    fst (erase_obs (wrapped_observe KAsync b s0 ops)) = fst (plain_observe KAsync b s0 ops).
+Proof. exact (fun S b s0 ops => wrap_gen_fwd_ops KAsync b s0 ops (fun E => match E with eq_refl => I end)). Qed.
+
+Theorem C03_async_generator_full :
+  forall (S : Type) (b : body S) (s0 : S) (ops : list op),
+    honours_close b ->
+    erase_obs (wrapped_observe KAsync b s0 ops) = plain_observe KAsync b s0 ops.
+Proof. exact (fun S b s0 ops Hc => wrap_gen_fwd_full KAsync b s0 ops (fun E => match E with eq_refl => I end) Hc). Qed.
+
+(* what the line `Definition repo_forwards` commits to (compiles for either value; today: the full
+   theorem for both kinds) *)
 Theorem C03_generator_current : current_claim repo_forwards.
 Proof. exact current_claim_holds. Qed.
+
+(* ---- why forwarding matters: the wrapper /repo had before 767d84e (fwd = false) ---------------- *)
+(* kept as the regression statement: a wrapper that does not forward throw()/close() is refuted for
+   generators and async generators; these are the witnesses the check replays first on every run *)
+Theorem C03_nonforwarding_wrapper_refuted :
+  ~ transparent_for false KGen /\ ~ transparent_for false KAsync.
+Proof. exact (conj generator_full_false async_generator_full_false). Qed.
+
+Theorem C03_nonforwarding_wrapper_witnesses :
+  (erase_obs (wrapped_observe_with false KGen wit_catch 0 [OpNext; OpThrow ValueErr])
+   = ([([EIn (SendV 0)], OYield 1); ([EIn (ThrowE GenExit)], ORaise ValueErr)], [])
+   /\ plain_observe KGen wit_catch 0 [OpNext; OpThrow ValueErr]
+   = ([([EIn (SendV 0)], OYield 1); ([EIn (ThrowE ValueErr)], OYield 5)], [EIn (ThrowE GenExit)]))
+  /\ (erase_obs (wrapped_observe_with false KGen wit_stubborn 0 [OpNext; OpClose])
+      = ([([EIn (SendV 0)], OYield 1); ([EIn (ThrowE GenExit)], ONone)], [])
+      /\ plain_observe KGen wit_stubborn 0 [OpNext; OpClose]
+      = ([([EIn (SendV 0)], OYield 1); ([EIn (ThrowE GenExit)], ORaise RuntimeErr)], [EIn (ThrowE GenExit)])).
+Proof. exact (conj refuted_throw refuted_close). Qed.
+
+(* what that former wrapper did preserve: next()/send()-only histories of every body *)
+Theorem C03_nonforwarding_wrapper_partial :
+  forall (k : kind) (S : Type) (b : body S) (s0 : S) (ops : list op),
+    k <> KCoro ->
+    forallb is_send ops = true ->
+    erase_obs (wrapped_observe_with false k b s0 ops) = plain_observe k b s0 ops.
+Proof. exact (fun k S b s0 ops Hk Hs => wrap_gen_send_only k b s0 ops Hk Hs). Qed.
 
 (* ---- metadata ------------------------------------------------------------------------------- *)
 (* name, docstring, signature and function kind of what wrap_callable returns for a plain
